@@ -1154,6 +1154,95 @@ def _(m):
     ], None)
 
 
+# ---- round 12 (configuration values, second uses)
+@mutant("c10_times_one_reuses_the_operands_boxes", "C10")
+def _(m):
+    F = m["Fiber"]
+    orig = F.__mul__
+
+    def __mul__(self, other):
+        if not isinstance(other, F) and m["Payload"].get(other) == 1 and self.payloads and not isinstance(self.payloads[0], F):
+            r = orig(self, other)
+            r.payloads = list(self.payloads)          # "nothing to compute"
+            return r
+        return orig(self, other)
+    F.__mul__ = __mul__
+
+
+@mutant("c03_imul_zero_clears_the_fiber", "C03")
+def _(m):
+    F = m["Fiber"]
+    orig = F.__imul__
+
+    def __imul__(self, other):
+        if not isinstance(other, F) and m["Payload"].get(other) == 0 and self.payloads and not isinstance(self.payloads[0], F):
+            self.clear()
+            return self
+        return orig(self, other)
+    F.__imul__ = __imul__
+
+
+@mutant("c05_populate_object_can_be_walked_once", "C05")
+def _(m):
+    it = m["iterators"]
+    orig = it.__lshift__
+
+    def __lshift__(self, other, *a, **k):
+        lazy = orig(self, other, *a, **k)
+        cls = type(lazy)
+        real_iter = cls.__iter__
+        state = {"used": False}
+
+        class Once:
+            def __init__(self, inner):
+                self.inner = inner
+
+            def __iter__(self):
+                if state["used"]:
+                    return (x for x in ())
+                state["used"] = True
+                return iter(self.inner)
+
+            def __getattr__(self, n):
+                return getattr(self.inner, n)
+        return Once(lazy)
+    it.__lshift__ = __lshift__
+    m["Fiber"].__lshift__ = __lshift__
+
+
+@mutant("c16_one_threshold_full_of_rows_per_write", "C16")
+def _(m):
+    patch_method(m["Metrics"], "_writeTrace", [
+        ("    trace_strs = [\",\".join(str(val) for val in line) + \"\\n\" for line in file_trace]",
+         "    rest = file_trace[cls.num_cached_uses:]\n    file_trace = file_trace[:cls.num_cached_uses]\n"
+         "    trace_strs = [\",\".join(str(val) for val in line) + \"\\n\" for line in file_trace]"),
+        ("    cls.traces[rank][type_] = ([], mem_trace, True)", "    cls.traces[rank][type_] = (rest, mem_trace, True)"),
+    ], None)
+
+
+@mutant("c16_lazy_range_walk_numbers_from_its_start", "C16")
+def _(m):
+    it = m["iterators"]
+    orig = it.iterRange
+
+    def iterRange(self, start, end, tick=True, start_pos=None):
+        if self.isLazy() and start is not None:
+            import itertools
+            inner = self.iter
+
+            def trimmed():
+                return itertools.dropwhile(lambda cp: cp[0] < start, inner())
+            self.iter = trimmed
+            try:
+                yield from orig(self, start, end, tick=tick, start_pos=start_pos)
+            finally:
+                self.iter = inner
+        else:
+            yield from orig(self, start, end, tick=tick, start_pos=start_pos)
+    it.iterRange = iterRange
+    m["Fiber"].iterRange = iterRange
+
+
 def apply(name):
     if name not in MUTANTS:
         raise SystemExit(f"unknown mutant {name}; known: {sorted(MUTANTS)}")
